@@ -324,7 +324,10 @@ class FunctionParser(BaseParser):
         # https://docs.python.org/3/library/typing.html#typing.Generator
         if self.return_type and isinstance(self.return_type, type) and issubclass(self.return_type, Rule):
             if self.is_generator:
-                if self.return_type.__origin__ in (Iterable, Iterator):
+                if not self.return_type.__args__:
+                    # bare Iterator / Generator: nothing to convert
+                    pass
+                elif self.return_type.__origin__ in (Iterable, Iterator):
                     self.generator_yield_type = self.return_type.__args__[0]
                 elif self.return_type.__origin__ == Generator:
                     (
@@ -339,7 +342,9 @@ class FunctionParser(BaseParser):
                         warning_settings.function_invalid_return_annotation
                     )
             elif self.is_async_generator:
-                if self.return_type.__origin__ in (AsyncIterable, AsyncIterator):
+                if not self.return_type.__args__:
+                    pass
+                elif self.return_type.__origin__ in (AsyncIterable, AsyncIterator):
                     self.generator_yield_type = self.return_type.__args__[0]
                 elif self.return_type.__origin__ == AsyncGenerator:
                     (
@@ -492,7 +497,8 @@ class FunctionParser(BaseParser):
             if field:
                 required = field.no_default
             else:
-                required = v.default != v.empty
+                # a parameter that is not a field (private): required when python has no default for it
+                required = v.default == v.empty
 
             if required:
                 if i in self.exclude_indexes:
@@ -633,10 +639,11 @@ class FunctionParser(BaseParser):
                 field = self.positional_fields.get(i)
 
                 if field:
+                    # the position is filled whatever happens to the value: the name must not be filled again by keyword
+                    parsed_keys.append(field.attname)
                     if field.is_no_input(arg, options=context.options):
                         arg = field.get_default(options=context.options)
                     else:
-                        parsed_keys.append(field.attname)
                         arg = field.parse_value(arg, context=context)
                     if unprovided(arg):
                         # on_error=excluded, or error collected
@@ -659,6 +666,7 @@ class FunctionParser(BaseParser):
                 continue
             if field.is_required(options=context.options):
                 context.handle_error(exc.AbsenceError(item=field.attname))
+                parsed_keys.append(field.attname)   # reported here, not once more by parse_data
                 continue
             default = field.get_default(context.options)
             if not unprovided(default):
